@@ -79,6 +79,12 @@ def read_cmc_b(data):
             f.notes.add("ruler%d" % min(len(stars), 8))
             if len(stars) > 7:
                 f.notes.add("ruler>7")
+    # a first line of asterisks that leaves no room for the fields (a banner of contiguous asterisks): the library
+    # takes it for a column ruler all the same and reads every number from its column start to wherever the digits
+    # end; what such a file "says" is not defined: unspecified (found at seed 5; the tie still covers it)
+    degenerate = first == 1 and (cols[1] - cols[0] < 6 or any(cols[k + 1] - cols[k] < 2 for k in range(1, len(cols) - 1)))
+    if degenerate:
+        f.notes.add("ruler-degenerate")
     for ln in lines[first:]:
         if len(ln) + 1 > 255:
             f.notes.add("longline")
@@ -107,6 +113,9 @@ def read_cmc_b(data):
         if len(body) < cols[5] + 1 or not all(INT_RE.match(x) for x in fs):
             f.entries.append((key, AMBIG))          # truncated or garbled line: unspecified
             f.notes.add("malformed-line")
+            continue
+        if degenerate:
+            f.entries.append((key, AMBIG))
             continue
         sc, rf, nb = (int(x) for x in fs)
         if not (in_int(sc) and in_int(rf) and in_int(nb)) or nb < 0:
